@@ -530,6 +530,40 @@ impl<'r> BookGen<'r> {
         tags
     }
 
+    /// Appends a fully written transaction that mixes a posting with an explicit cost (`q X @ r Z`)
+    /// with an implied exchange in another pair: `a Y` against `-(q*r + b) Z` leaves `a Y` and `-b Z`
+    /// open, i.e. states `a Y = b Z` on that day. Payee `IMPLIEDnQ`. Returns false if the model
+    /// would not accept it.
+    pub fn push_implied_exchange(&mut self) -> bool {
+        let mut cs: Vec<&str> = COMMODITIES.to_vec();
+        self.rng.shuffle(&mut cs);
+        let (x, y, z) = (cs[0], cs[1], cs[2]);
+        let q = 1 + self.rng.below(9) as i128;
+        let r = 2 + self.rng.below(40) as i128;
+        let a = 1 + self.rng.below(50) as i128;
+        let b = 1 + self.rng.below(90) as i128;
+        let posts = vec![
+            Post { account: "Assets:Broker".into(), amount: Some(AmountExpr::Lit(Amt::new(q, 0, x))), cost: Some(Price::Rate(Amt::new(r, 0, z))), lot: None, assertion: None },
+            Post::simple("Assets:Bank", Amt::new(a, 0, y)),
+            Post::simple("Assets:Cash", Amt::new(-(q * r + b), 0, z)),
+        ];
+        let date = self.next_date();
+        self.txn_counter += 1;
+        let t = Txn { date, effective: None, payee: format!("IMPLIED{}Q", self.txn_counter), posts };
+        let mut scratch = self.state.clone();
+        match book::apply_txn(&mut scratch, &t) {
+            Outcome::MustAccept(_) | Outcome::May(_) => {
+                self.state = scratch;
+                self.ledger.entries.push(Entry::Txn(t));
+                true
+            }
+            _ => {
+                self.txn_counter -= 1;
+                false
+            }
+        }
+    }
+
     /// Generates one transaction, appends it, and returns (closing label, decoration tags).
     pub fn push_txn(&mut self, good_only: bool) -> (&'static str, Vec<&'static str>) {
         let mut label;
